@@ -13,3 +13,4 @@ def run(ck):
     gradient.r8_position_advances(ck, P)
     gradient.r9_radial_roots(ck, P)
     gradient.r10_widen_before_arithmetic(ck, P)
+    gradient.r11_walker_segment_test_siblings(ck, P)
